@@ -230,6 +230,27 @@ PURE_ACCESSORS = {
 }
 
 
+PURE_ADAPTORS = {
+    "any", "all", "find", "position", "map", "filter", "rev", "enumerate", "zip", "windows", "skip", "take", "is_ascii_digit", "is_ascii", "is_char_boundary",
+    "is_alphabetic", "is_sorted", "checked_add", "checked_mul", "checked_sub", "is_some_and", "is_none_or", "max", "min", "eq", "ne", "into_iter", "last",
+    "collect", "sum", "fold", "join", "concat", "unzip", "flatten", "flat_map", "filter_map", "chain", "find_map", "take_while", "skip_while", "peekable", "nth", "step_by",
+    "is_power_of_two", "leading_zeros", "count_ones", "contains_any", "intersects", "is_all", "union", "intersection", "complement", "difference",
+}
+PURE_CRATE_METHODS = set()  # names of the crate's own `&self` methods whose every definition only reads (computed by apply())
+ASSERT_MACROS = {"assert", "assert_eq", "assert_ne", "debug_assert", "debug_assert_eq", "debug_assert_ne"}
+
+
+def is_pure_assert(st):
+    """`debug_assert!(COND, "msg", ..)` / `assert_eq!(A, B)` … whose arguments only read values: the statement computes nothing the
+    function hands on; whether it can fire is a question for the panic census (C03), which reads it from the MIR."""
+    if not (isinstance(st, dict) and st.get("k") in ("expr", "macro") and isinstance(st.get("e"), dict)):
+        return False
+    m = st["e"]
+    if m.get("k") != "macro" or m.get("name") not in ASSERT_MACROS or m.get("args") is None:
+        return False
+    return all(pure_expr(a) for a in m["args"])
+
+
 def pure_expr(e):
     """An expression whose evaluation reads values and does nothing else: paths, literals, field accesses, references, casts,
     tuples/arrays of such, operators other than assignments, and calls of the std accessors above."""
@@ -252,9 +273,30 @@ def pure_expr(e):
             return False
         return pure_expr(e.get("lhs")) and pure_expr(e.get("rhs"))
     if k == "mcall":
-        return e.get("m") in PURE_ACCESSORS and pure_expr(e.get("recv")) and pure_expr(e.get("args"))
+        return e.get("m") in (PURE_ACCESSORS | PURE_ADAPTORS | PURE_CRATE_METHODS) and pure_expr(e.get("recv")) and pure_expr(e.get("args"))
+    if k == "call":
+        f_ = e.get("f") or {}
+        segs = f_.get("segs") or [] if f_.get("k") == "path" else []
+        ctor = bool(segs) and (segs[-1][:1].isupper() or "::".join(segs[-2:]) in ("Box::new", "Rc::new", "Arc::new", "String::from", "String::new", "Vec::new"))
+        return ctor and pure_expr(e.get("args"))
+    if k == "match":
+        return pure_expr(e.get("scrut")) and all(pure_expr(a.get("body")) and (a.get("guard") is None or pure_expr(a.get("guard"))) for a in e.get("arms") or [])
+    if k == "if":
+        c_ = e.get("cond")
+        c_ok = pure_expr(c_.get("e")) if isinstance(c_, dict) and c_.get("k") == "letexpr" else pure_expr(c_)
+        return c_ok and pure_expr(e.get("then")) and (e.get("else") is None or pure_expr(e.get("else")))
+    if k == "closure":
+        # building a closure does nothing; calling it (by a pure adaptor) evaluates its body
+        return pure_expr(e.get("body"))
+    if k == "block":
+        sts = e.get("stmts") or []
+        return all((st.get("k") == "expr" and pure_expr(st.get("e"))) or (st.get("k") == "let" and st.get("else") is None and (st.get("init") is None or pure_expr(st.get("init")))) for st in sts)
     if k == "macro" and e.get("name") in ("format", "format_args", "stringify", "concat"):
         return pure_expr(e.get("args") or [])
+    if k == "macro" and e.get("name") == "matches":
+        return pure_expr(e.get("e")) and (e.get("guard") is None or pure_expr(e.get("guard")))
+    if k == "macro" and e.get("name") == "cfg":
+        return True
     return False
 
 
@@ -332,6 +374,9 @@ def _has_try_or_parse(node):
     return False
 
 
+DROPPED_ASSERTS = []
+
+
 def _simplify_blocks(node, log, where):
     """N5  statements that only log are dropped.
     N6  `{ let x = E; x }` is `E`;  N8  `{ let x = E; T }` with one use of x in T, everything else in T pure, is `T[x := E]`.
@@ -353,9 +398,22 @@ def _simplify_blocks(node, log, where):
         if len(keep) != len(st):
             n += len(st) - len(keep)
             st = keep
+        # N10  an assertion whose arguments only read values hands nothing on: dropped here, kept for the panic census
+        keep = []
+        for s_ in st:
+            if is_pure_assert(s_):
+                DROPPED_ASSERTS.append(s_["e"])
+                n += 1
+            else:
+                keep.append(s_)
+        st = keep
         keep = []
         for s_ in st:
             e_ = s_.get("e") if isinstance(s_, dict) and s_.get("k") == "expr" else None
+            # N11  a block statement with nothing left in it is nothing
+            if isinstance(e_, dict) and e_.get("k") == "block" and not e_.get("stmts") and not e_.get("unsafe") and len(st) > 1:
+                n += 1
+                continue
             if isinstance(e_, dict) and e_.get("k") == "if" and e_.get("else") is None and isinstance(e_.get("then"), dict) and e_["then"].get("k") == "block" and not e_["then"].get("stmts") and e_["cond"].get("k") != "letexpr" and pure_expr(e_["cond"]):
                 n += 1
                 continue
@@ -384,14 +442,42 @@ def _simplify_blocks(node, log, where):
     return n
 
 
+def _pure_crate_methods(facts):
+    """Names of `&self` methods of the crate all of whose definitions have a body that only reads values (least fixed point
+    grown from the std accessors: a method is added when its body is pure given the methods found so far; recursion through
+    itself is allowed)."""
+    PURE_CRATE_METHODS.clear()
+    by_name = {}
+    for fn in facts.fns.values():
+        if fn.test or fn.body is None or fn.impl is None:
+            continue
+        by_name.setdefault(fn.name, []).append(fn)
+    cand = {n_ for n_, fs in by_name.items() if all(f_.node.get("self") == "&self" for f_ in fs) and n_ not in PURE_ACCESSORS and n_ not in PURE_ADAPTORS}
+    # greatest fixed point over the candidates (so that structural recursion counts as pure), shrunk until stable
+    PURE_CRATE_METHODS.update(cand)
+    changed = True
+    while changed:
+        changed = False
+        for n_ in sorted(PURE_CRATE_METHODS):
+            if not all(pure_expr(f_.body) for f_ in by_name[n_]):
+                PURE_CRATE_METHODS.discard(n_)
+                changed = True
+    return sorted(PURE_CRATE_METHODS)
+
+
 def apply(facts):
     facts.normalised = []
     import re as _re
 
+    facts.pure_methods = _pure_crate_methods(facts)
+
     for key, fn in facts.fns.items():
         if fn.body is None or fn.test:
             continue
+        del DROPPED_ASSERTS[:]
         k_ = _simplify_blocks(fn.node["body"], facts.normalised, key)
+        if DROPPED_ASSERTS:
+            fn.node["_asserts"] = list(DROPPED_ASSERTS)
         if k_:
             facts.normalised.append("%s: %d pure log statements / single-use bindings / empty conditionals folded" % (key, k_))
 
